@@ -4,8 +4,13 @@
 // Without the build tag "verif" every call compiles to nothing.
 package verifhook
 
+import "time"
+
 // Enabled reports whether hooks are compiled in.
 const Enabled = false
 
 // Hit is a no-op without the verif build tag.
 func Hit(string, ...any) {}
+
+// Pace is the identity without the verif build tag.
+func Pace(d time.Duration) time.Duration { return d }
